@@ -183,6 +183,11 @@ TraceStep(st, e, line) ==
         devs == FieldDevs(line, e, pre, o) \o evDevs
                 \o AllProjDevs(line, e, pre, s2, 0, af.refany)
                 \o (IF e.est # Cardinality(Phys(s2)) THEN <<D(line, e, pre, "est", Cardinality(Phys(s2)), e.est)>> ELSE <<>>)
+                \o (IF a.op = "CleanUp" /\ HasExp(s2.cfg)
+                    THEN LET tickU == 1073741824 \div s2.cfg.scale
+                             late == {k \in Keys(s2) : s2.ent[k].p /\ s2.ent[k].exp >= 0 /\ s2.now - s2.ent[k].exp > tickU}
+                         IN IF late # {} THEN <<D(line, e, pre, "sweep.late", {}, [k \in late |-> s2.ent[k].exp])>> ELSE <<>>
+                    ELSE <<>>)
                 \o (IF e.inflight # 0 THEN <<D(line, e, pre, "inflight", 0, e.inflight)>> ELSE <<>>)
                 \o (IF e.now # s2.now THEN <<D(line, e, pre, "now", s2.now, e.now)>> ELSE <<>>)
                 \o statDevs
